@@ -54,6 +54,19 @@ Theorem C20_wrappers_over_std_types_values : forall x, refwrap_std_m x = refwrap
 Proof. exact refwrap_std_agrees. Qed.
 Print Assumptions C20_wrappers_over_std_types_values.
 
+(* function_ref over function pointers and its assignment set (value / well-formedness script of op frefptr; model and spec
+   are the same transcription of [func.wrap.ref]: the content is the comparison with the compiled header) *)
+Theorem C20_function_ref_pointers_and_assignment : forall v, fref_ptr_m v = fref_ptr_spec v.
+Proof. exact fref_ptr_agrees. Qed.
+Print Assumptions C20_function_ref_pointers_and_assignment.
+
+(* how often a tracked element is copied / moved on its way through bind_front (bound argument and callable),
+   inplace_function, make_tuple, make_from_tuple and apply: computed from the model functions of the previous theorems
+   (tuple_ctor_m, bindfront_call_all_m, apply_cats_m, init_elem) for eleven concrete expressions = the standard's counts *)
+Theorem C20_copy_move_counts : xfer_m = xfer_spec.
+Proof. exact xfer_agrees. Qed.
+Print Assumptions C20_copy_move_counts.
+
 Example C20_nonvacuous_calls :
   Forall is_cat [LV; CRV]
   /\ bindfront_call_all_m RV 2 [LV; CRV] = Some (RV, [RV; RV; LV; CRV])
